@@ -457,6 +457,10 @@ def run(ctx):
                where=tb.loc, detail=None if okw else vals)
 
 
+# the AsyncReadExt operations that may complete after fewer bytes than there is room for
+_SHORT_READS = ("read", "read_buf")
+
+
 def check_plain_reads(ctx, f):
     # who uses a plain (possibly short) `read`, and how much it may take: fixed-size parts of a PDU are filled with read_exact;
     # the two cursor loops hand `read` either the still-missing tail of the fixed target or at most min(remaining, buffer)
@@ -465,7 +469,7 @@ def check_plain_reads(ctx, f):
         if not n.startswith("rtr::"):
             continue
         for c in b.calls():
-            if c.name == "read" and (c.trait or "").endswith("AsyncReadExt") and not b.is_cleanup(c.bb):
+            if c.name in _SHORT_READS and (c.trait or "").endswith("AsyncReadExt") and not b.is_cleanup(c.bb):
                 plain.append((root_fn(f, n), K.alpha(K.arg_renders(c)[1], b), c.where(), K.arg_terms(c)[1]))
     # every plain read sits on a cycle of its function (a cursor loop); fixed-size parts are filled by read_exact
     not_in_loop = []
@@ -474,7 +478,7 @@ def check_plain_reads(ctx, f):
             continue
         sccs = b.cycles_sccs()
         for c in b.calls():
-            if c.name == "read" and (c.trait or "").endswith("AsyncReadExt") and not b.is_cleanup(c.bb):
+            if c.name in _SHORT_READS and (c.trait or "").endswith("AsyncReadExt") and not b.is_cleanup(c.bb):
                 if not any(c.bb in comp for comp in sccs):
                     not_in_loop.append("%s @ %s" % (short(root_fn(f, n)), c.where()))
     ctx.ob("R-WHO", "AsyncReadExt::read-callers", not not_in_loop and len(plain) >= 2,
